@@ -175,6 +175,15 @@ impl Format {
 
         let s = s_in.trim();
 
+        // Dates are ASCII only. The tokenizer below slices by character index, which is only a
+        // valid byte index in ASCII strings.
+        if !s.is_ascii() {
+            return Err(HifitimeError::Parse {
+                source: ParsingError::ValueError,
+                details: "when parsing from format string",
+            });
+        }
+
         for (idx, char) in s.chars().enumerate() {
             // We should parse if:
             // 1. we're at the end of the string
@@ -244,15 +253,25 @@ impl Format {
                     idx + 1
                 };
 
+                if prev_idx > end_idx {
+                    return Err(HifitimeError::Parse {
+                        source: ParsingError::ValueError,
+                        details: "when parsing from format string",
+                    });
+                }
+
                 let sub_str = &s[prev_idx..end_idx];
 
                 match prev_token {
                     Token::YearShort => {
-                        decomposed[0] =
-                            sub_str.parse::<i32>().map_err(|_| HifitimeError::Parse {
+                        decomposed[0] = sub_str
+                            .parse::<i32>()
+                            .ok()
+                            .and_then(|year| year.checked_add(2000))
+                            .ok_or(HifitimeError::Parse {
                                 source: ParsingError::ValueError,
                                 details: "could not parse year as i32",
-                            })? + 2000;
+                            })?;
                     }
                     Token::DayOfYear => {
                         // We must parse this as a floating point value.
@@ -279,7 +298,10 @@ impl Format {
                         }
                     }
                     Token::WeekdayDecimal => {
-                        todo!()
+                        return Err(HifitimeError::Parse {
+                            source: ParsingError::UnknownFormat,
+                            details: "parsing the weekday as a decimal is not supported",
+                        });
                     }
                     Token::MonthName | Token::MonthNameShort => {
                         match MonthName::from_str(sub_str) {
@@ -303,7 +325,13 @@ impl Format {
                                     Some(pos) => {
                                         // If these are the subseconds, we must convert them to nanoseconds
                                         if prev_token == Token::Subsecond {
-                                            if end_idx - prev_idx != 9 {
+                                            if end_idx - prev_idx > 9 {
+                                                // More digits than nanoseconds
+                                                return Err(HifitimeError::Parse {
+                                                    source: ParsingError::ValueError,
+                                                    details: "more than nine subsecond digits",
+                                                });
+                                            } else if end_idx - prev_idx != 9 {
                                                 decomposed[pos] = val
                                                     * 10_i32.pow((9 - (end_idx - prev_idx)) as u32);
                                             } else {
@@ -354,6 +382,8 @@ impl Format {
 
         let epoch = match day_of_year {
             Some(days) => {
+                // Check the year first: from_day_of_year panics if the start of the year cannot be represented.
+                Epoch::maybe_from_gregorian(decomposed[0], 1, 1, 0, 0, 0, 0, ts)?;
                 // Parse the elapsed time in the given day
                 let elapsed = (decomposed[3] as i64) * Unit::Hour
                     + (decomposed[4] as i64) * Unit::Minute
